@@ -49,6 +49,33 @@ Theorem C20_second_exact_on_quadratic_interior :
 Proof. intros; split; [apply Dxx_exact_quadratic | apply Dyy_exact_quadratic]; assumption. Qed.
 Print Assumptions C20_second_exact_on_quadratic_interior.
 
+(* what the property does NOT promise, stated positively: in a boundary column (row) the code's Dxx (Dyy) row is the one-sided
+   first difference divided by the spacing once more, so on a linear field it returns slope/spacing, for every grid >= 2x2 *)
+Theorem C20_second_derivative_boundary_rows_are_one_sided :
+  forall nx ny ix iy, (2 <= nx)%Z -> (2 <= ny)%Z -> (0 <= ix < nx)%Z -> (0 <= iy < ny)%Z ->
+  forall dx dy, ~ dx == 0 -> ~ dy == 0 -> forall x0 y0 a b c,
+  ((ix = 0 \/ ix = nx - 1)%Z -> apply (op_row ODxx nx ny ix iy dx dy) (lin dx dy x0 y0 a b c) ix iy == b / dx) /\
+  ((iy = 0 \/ iy = ny - 1)%Z -> apply (op_row ODyy nx ny ix iy dx dy) (lin dx dy x0 y0 a b c) ix iy == c / dy).
+Proof. intros; split; [apply Dxx_boundary_on_linear | apply Dyy_boundary_on_linear]; assumption. Qed.
+Print Assumptions C20_second_derivative_boundary_rows_are_one_sided.
+
+(* interior rows are centred, hence second-order: Dx, Dy and Dxy are exact on every quadratic field away from the boundary
+   they differentiate across *)
+Theorem C20_first_and_mixed_exact_on_quadratic_interior :
+  forall nx ny ix iy, (2 <= nx)%Z -> (2 <= ny)%Z -> (0 <= ix < nx)%Z -> (0 <= iy < ny)%Z ->
+  forall dx dy, ~ dx == 0 -> ~ dy == 0 -> forall x0 y0 a b c d e g,
+  ((0 < ix < nx - 1)%Z -> apply (op_row ODx nx ny ix iy dx dy) (quad dx dy x0 y0 a b c d e g) ix iy
+                           == b + 2 * d * xc x0 dx ix + e * yc y0 dy iy) /\
+  ((0 < iy < ny - 1)%Z -> apply (op_row ODy nx ny ix iy dx dy) (quad dx dy x0 y0 a b c d e g) ix iy
+                           == c + e * xc x0 dx ix + 2 * g * yc y0 dy iy) /\
+  ((0 < ix < nx - 1)%Z -> (0 < iy < ny - 1)%Z ->
+     apply (op_row ODxy nx ny ix iy dx dy) (quad dx dy x0 y0 a b c d e g) ix iy == e).
+Proof.
+  intros; split; [|split]; intros;
+    [apply Dx_exact_quadratic_interior | apply Dy_exact_quadratic_interior | apply Dxy_exact_quadratic_interior]; assumption.
+Qed.
+Print Assumptions C20_first_and_mixed_exact_on_quadratic_interior.
+
 Theorem C20_rows_stay_in_grid :
   forall nx ny ix iy, (2 <= nx)%Z -> (2 <= ny)%Z -> (0 <= ix < nx)%Z -> (0 <= iy < ny)%Z ->
   forall dx dy o a b, ~ op_row o nx ny ix iy dx dy a b == 0 -> has nx ny ix iy a b = true.
